@@ -196,4 +196,11 @@ def cases(tier, seed):
         if not q:
             out.append(Case("%s:exact-recovery:lstsq:N=5:p=2" % mt, case_exact_recovery,
                             dict(N=5, p=2, modified=modified, impl='lstsq'), timeout=900, max_paths=16, feas_timeout=5, wall=2400))
+    from .common import reuse_cases, Call
+    specs = []
+    for cplx in (False, True):
+        specs += [("arcovar(p=1)", Call('arcovar', 1), 4, cplx), ("modcovar(p=1)", Call('modcovar', 1), 4, cplx),
+                  ("arcovar_marple(p=1)", Call('arcovar_marple', 1), 4, cplx), ("modcovar_marple(p=1)", Call('modcovar_marple', 1), 4, cplx),
+                  ("corrmtx(modified)", Call('corrmtx', 1, 'modified'), 3, cplx), ("corrmtx(covariance)", Call('corrmtx', 1, 'covariance'), 3, cplx)]
+    out += reuse_cases(specs, q)
     return out
